@@ -347,6 +347,7 @@ func runLoadScenario(sc ldScenario) ldResult {
 			}
 		}))
 	}
+	var lateRefresh []<-chan RefreshResult[int, int]
 	for i := 1; i <= sc.Refreshers; i++ {
 		s.Go("r"+strconv.Itoa(i), guard("Refresh", func() {
 			note(ldEvent{T: "call", Op: "Refresh", K: 1})
@@ -358,8 +359,12 @@ func runLoadScenario(sc ldScenario) ldResult {
 			select {
 			case r := <-ch:
 				note(ldEvent{T: "ret", Op: "Refresh", K: 1, V: r.Value, Err: errClassLd(r.Err)})
-			case <-time.After(3 * time.Second):
-				note(ldEvent{T: "ret", Op: "Refresh", K: 1, Err: "timeout"})
+			case <-time.After(2 * time.Second):
+				// not a verdict yet: on a starved machine the reload may merely be slow; the channel is looked at again after
+				// the scheduler has finished and every gate is open (lateRefresh)
+				mu.Lock()
+				lateRefresh = append(lateRefresh, ch)
+				mu.Unlock()
 			}
 		}))
 	}
@@ -403,6 +408,17 @@ func runLoadScenario(sc ldScenario) ldResult {
 	}
 	if res.Diag != "" && res.Diag != "step limit" && !strings.HasPrefix(res.Diag, "panic") && s.WaitDone(5*time.Second) {
 		res.Diag = ""
+	}
+	mu.Lock()
+	late := append([]<-chan RefreshResult[int, int]{}, lateRefresh...)
+	mu.Unlock()
+	for _, ch := range late {
+		select {
+		case r := <-ch:
+			note(ldEvent{T: "ret", Op: "Refresh", K: 1, V: r.Value, Err: errClassLd(r.Err)})
+		case <-time.After(5 * time.Second):
+			note(ldEvent{T: "ret", Op: "Refresh", K: 1, Err: "timeout"})
+		}
 	}
 	// Run may give up while goroutines are merely slow (loaded machine): a call counts as hung only if it
 	// has still not returned after a generous wait with every gate open
